@@ -507,7 +507,299 @@ theorem truncate_once_then_append (s : Store K F) (fi : FieldInfo) (hm : s.mode 
   exact (append_mode_never_truncates (ops.drop n) _ p2 hlen'
     (fun o ho => hk o (List.mem_of_mem_drop ho))).1
 
+/-- **readonly, what holds** (`readonly_rejects` is the session start).  Full statement that
+the documentation suggests and that is FALSE for the code and therefore for the model:
+`s.mode = .readonly → ∀ op, (sstep s op).1.contents = s.contents` ("'readonly' will disable
+writing completely").  What holds: every operation except `append`, `clear` and a mode change
+leaves a readonly storage untouched; `readonly_append_accepted` is the counterexample. -/
+theorem readonly_frozen_partial (s : Store K F) (hm : s.mode = .readonly) (op : SOp K F)
+    (h1 : ∀ fi t f, op ≠ .append fi t f) (h2 : ∀ b, op ≠ .clear b) (h3 : ∀ m, op ≠ .setMode m) :
+    (sstep s op).1 = s := by
+  cases op with
+  | start fi => simp [sstep, readonly_rejects s fi hm]
+  | append fi t f => exact absurd rfl (h1 fi t f)
+  | endW => rfl
+  | clear b => exact absurd rfl (h2 b)
+  | setMode m => exact absurd rfl (h3 m)
+
+/-- counterexample to the full readonly statement, on the model (the harness replays it on the
+real code): a storage that knows its data shape accepts `append` in `readonly` mode -/
+theorem readonly_append_accepted (s : Store K F) (fi : FieldInfo) (t : K) (f : F)
+    (hm : s.mode = .readonly) (hlen : s.times.length = s.frames.length)
+    (hs : s.dataShape = some fi.shape) (hg : s.grid = some fi.grid) :
+    (append s fi (some t) f).2 = none ∧
+      (append s fi (some t) f).1.contents = s.contents ++ [(t, f)] ∧
+      (append s fi (some t) f).1.mode = .readonly := by
+  have ha : (append s fi (some t) f).2 = none :=
+    (append_accepted_iff s fi (some t) f).mpr ⟨Or.inr hg, hs⟩
+  rcases append_cases s fi (some t) f with ⟨_, ht, hf, hmd⟩ | ⟨he, _⟩
+  · refine ⟨ha, ?_, by rw [hmd, hm]⟩
+    simp only [Store.contents, ht, hf, Option.getD_some]
+    rw [List.zip_append hlen]; rfl
+  · exact absurd ha he
+
 end
+
+/-! ### `extract_time_range`: binary search and consistency with the stored pairs -/
+
+section bisect
+variable {K F : Type}
+
+/-- the search loop keeps its bracket: everything left of `base` goes right, nothing from
+`base + len` on does; needs only that `goRight` is downward closed along the list -/
+theorem bisectGo_spec (go : K → Bool) (ts : List K)
+    (hcl : ∀ (i j : Nat) (v w : K), i ≤ j → ts[i]? = some v → ts[j]? = some w → go w = true → go v = true) :
+    ∀ fuel base len, 1 ≤ len → len ≤ fuel + 1 → base + len ≤ ts.length →
+      (∀ (i : Nat) (v : K), i < base → ts[i]? = some v → go v = true) →
+      (∀ (i : Nat) (v : K), base + len ≤ i → ts[i]? = some v → go v = false) →
+      bisectGo go ts fuel base len < ts.length ∧
+      (∀ (i : Nat) (v : K), i < bisectGo go ts fuel base len → ts[i]? = some v → go v = true) ∧
+      (∀ (i : Nat) (v : K), bisectGo go ts fuel base len + 1 ≤ i → ts[i]? = some v → go v = false) := by
+  intro fuel
+  induction fuel with
+  | zero =>
+    intro base len h1 h2 h3 hlo hhi
+    have : len = 1 := by omega
+    subst this
+    simp only [bisectGo]
+    exact ⟨by omega, hlo, hhi⟩
+  | succ n ih =>
+    intro base len h1 h2 h3 hlo hhi
+    unfold bisectGo
+    by_cases hlen : 1 < len
+    · simp only [hlen, if_true]
+      have hmid : base + len / 2 < ts.length := by omega
+      have hmid' : ts[base + len / 2]? = some ts[base + len / 2] := List.getElem?_eq_getElem hmid
+      rw [hmid']
+      simp only
+      have hhalf : 1 ≤ len / 2 := by omega
+      cases hg : go ts[base + len / 2] with
+      | true =>
+        simp only [if_true]
+        apply ih (base + len / 2) (len - len / 2) (by omega) (by omega) (by omega)
+        · intro i v hi hv
+          exact hcl i (base + len / 2) v _ (by omega) hv hmid' hg
+        · intro i v hge hv
+          exact hhi i v (by omega) hv
+      | false =>
+        simp only [Bool.false_eq_true, if_false]
+        apply ih base (len - len / 2) (by omega) (by omega) (by omega) hlo
+        intro i v hge hv
+        cases hgi : go v with
+        | false => rfl
+        | true =>
+          have := hcl (base + len / 2) i _ v (by omega) hmid' hv hgi
+          rw [hg] at this; cases this
+    · simp only [hlen, if_false]
+      have : len = 1 := by omega
+      subst this
+      exact ⟨by omega, hlo, hhi⟩
+
+/-- on a list along which `goRight` is downward closed the search returns the partition
+point: exactly the entries before it go right -/
+theorem bisect_spec (go : K → Bool) (ts : List K)
+    (hcl : ∀ (i j : Nat) (v w : K), i ≤ j → ts[i]? = some v → ts[j]? = some w → go w = true → go v = true) :
+    bisect go ts ≤ ts.length ∧
+      ∀ (i : Nat) (v : K), ts[i]? = some v → (i < bisect go ts ↔ go v = true) := by
+  by_cases hn : ts.length = 0
+  · have : ts = [] := List.eq_nil_of_length_eq_zero hn
+    subst this
+    simp [bisect, bisectGo]
+  · obtain ⟨h1, h2, h3⟩ := bisectGo_spec go ts hcl ts.length 0 ts.length (by omega) (by omega)
+      (by omega) (by intro i v h; omega)
+      (by intro i v hi hv
+          have := (List.getElem?_eq_some_iff.mp hv).1
+          omega)
+    unfold bisect
+    simp only
+    have hb := List.getElem?_eq_getElem h1
+    rw [hb]
+    simp only
+    cases hg : go ts[bisectGo go ts ts.length 0 ts.length] with
+    | true =>
+      simp only [if_true]
+      refine ⟨by omega, ?_⟩
+      intro i v hv
+      constructor
+      · intro hlt
+        by_cases he : i = bisectGo go ts ts.length 0 ts.length
+        · subst he; rw [hb] at hv; cases hv; exact hg
+        · exact h2 i v (by omega) hv
+      · intro hgi
+        by_contra hge
+        have := h3 i v (by omega) hv
+        rw [this] at hgi; cases hgi
+    | false =>
+      simp only [Bool.false_eq_true, if_false]
+      refine ⟨by omega, ?_⟩
+      intro i v hv
+      constructor
+      · intro hlt; exact h2 i v hlt hv
+      · intro hgi
+        by_contra hge
+        by_cases he : i = bisectGo go ts ts.length 0 ts.length
+        · subst he; rw [hb] at hv; cases hv; rw [hg] at hgi; cases hgi
+        · have := h3 i v (by omega) hv
+          rw [this] at hgi; cases hgi
+
+variable [LinearOrder K]
+
+theorem sorted_getElem?_le (ts : List K) (hs : ts.Pairwise (· ≤ ·)) (i j : Nat) (v w : K)
+    (hij : i ≤ j) (hv : ts[i]? = some v) (hw : ts[j]? = some w) : v ≤ w := by
+  obtain ⟨hi, rfl⟩ := List.getElem?_eq_some_iff.mp hv
+  obtain ⟨hj, rfl⟩ := List.getElem?_eq_some_iff.mp hw
+  rcases Nat.lt_or_eq_of_le hij with h1 | h1
+  · exact List.pairwise_iff_getElem.mp hs i j hi hj h1
+  · subst h1; exact le_refl _
+
+/-- `searchsorted(side="left")` on sorted times: the number of entries `< x` -/
+theorem bisectLeft_sorted (ts : List K) (hs : ts.Pairwise (· ≤ ·)) (x : K) :
+    bisectLeft ts x ≤ ts.length ∧
+      ∀ (i : Nat) (v : K), ts[i]? = some v → (i < bisectLeft ts x ↔ v < x) := by
+  have := bisect_spec (fun v => decide (v < x)) ts (by
+    intro i j v w hij hv hw h
+    simp only [decide_eq_true_eq] at h ⊢
+    exact lt_of_le_of_lt (sorted_getElem?_le ts hs i j v w hij hv hw) h)
+  simpa [bisectLeft] using this
+
+/-- `searchsorted(side="right")` on sorted times: the number of entries `≤ x` -/
+theorem bisectRight_sorted (ts : List K) (hs : ts.Pairwise (· ≤ ·)) (x : K) :
+    bisectRight ts x ≤ ts.length ∧
+      ∀ (i : Nat) (v : K), ts[i]? = some v → (i < bisectRight ts x ↔ v ≤ x) := by
+  have := bisect_spec (fun v => !decide (x < v)) ts (by
+    intro i j v w hij hv hw h
+    simp only [Bool.not_eq_eq_eq_not, Bool.not_true, decide_eq_false_iff_not, not_lt] at h ⊢
+    exact le_trans (sorted_getElem?_le ts hs i j v w hij hv hw) h)
+  simpa [bisectRight] using this
+
+/-- a predicate that holds exactly on the index range `[i, j)` filters out that range -/
+theorem filter_eq_drop_take {α : Type} (q : α → Bool) :
+    ∀ (l : List α) (i j : Nat), (∀ k (h : k < l.length), (q l[k] = true ↔ i ≤ k ∧ k < j)) →
+      l.filter q = (l.drop i).take (j - i) := by
+  intro l
+  induction l with
+  | nil => intro i j _; simp
+  | cons x xs ih =>
+    intro i j h
+    have h0 := h 0 (by simp)
+    simp only [List.getElem_cons_zero] at h0
+    have hxs : ∀ i' j', (∀ k (hk : k < xs.length), (q xs[k] = true ↔ i' ≤ k ∧ k < j')) →
+        xs.filter q = (xs.drop i').take (j' - i') := fun i' j' h' => ih i' j' h'
+    cases i with
+    | zero =>
+      cases j with
+      | zero =>
+        have hq : q x = false := by
+          cases hqx : q x with
+          | false => rfl
+          | true => have := h0.mp hqx; omega
+        rw [List.filter_cons_of_neg (by simp [hq])]
+        rw [hxs 0 0 (by
+          intro k hk
+          have := h (k + 1) (by simp; omega)
+          simp only [List.getElem_cons_succ] at this
+          rw [this]; omega)]
+        simp
+      | succ j' =>
+        have hq : q x = true := h0.mpr ⟨by omega, by omega⟩
+        rw [List.filter_cons_of_pos hq]
+        rw [hxs 0 j' (by
+          intro k hk
+          have := h (k + 1) (by simp; omega)
+          simp only [List.getElem_cons_succ] at this
+          rw [this]; omega)]
+        simp
+    | succ i' =>
+      have hq : q x = false := by
+        cases hqx : q x with
+        | false => rfl
+        | true => have := h0.mp hqx; omega
+      rw [List.filter_cons_of_neg (by simp [hq])]
+      rw [hxs i' (j - 1) (by
+        intro k hk
+        have := h (k + 1) (by simp; omega)
+        simp only [List.getElem_cons_succ] at this
+        rw [this]; omega)]
+      simp only [List.drop_succ_cons]
+      congr 1; omega
+
+theorem zip_drop_take {α β : Type} (l : List α) (l' : List β) (i n : Nat) :
+    ((l.zip l').drop i).take n = ((l.drop i).take n).zip ((l'.drop i).take n) := by
+  simp [List.zip_eq_zipWith, List.take_zipWith, List.drop_zipWith]
+
+/-- `construct` succeeds on lists of equal length and stores them as they are -/
+theorem construct_ok (times : List K) (frames : List F) (tm : Option FieldInfo) (m : Mode)
+    (h : times.length = frames.length) :
+    construct times frames tm m = .ok
+      { times := times, frames := frames, mode := m, dataShape := tm.map (·.shape),
+        dtypeSet := false, grid := tm.map (·.grid), template := tm } := by
+  unfold construct; simp [h]
+
+/-- `extract_time_range` with both ends given never fails and returns a storage in the default
+write mode that holds a contiguous run of the stored pairs - the *same* frame objects - and the
+same template.  Holds for arbitrary (also unsorted) times. -/
+theorem extract_time_range_is_slice (s : Store K F) (hlen : s.times.length = s.frames.length)
+    (a b : K) :
+    ∃ s' i n, extractTimeRange s (.pair (some a) (some b)) = .ok s' ∧
+      i = bisectLeft s.times a ∧ n = bisectRight s.times b - bisectLeft s.times a ∧
+      s'.contents = (s.contents.drop i).take n ∧ s'.frames = (s.frames.drop i).take n ∧
+      s'.template = s.template ∧ s'.mode = .truncateOnce ∧
+      s'.times.length = s'.frames.length := by
+  unfold extractTimeRange
+  simp only
+  rw [construct_ok _ _ _ _ (by simp [hlen])]
+  refine ⟨_, _, _, rfl, rfl, rfl, ?_, rfl, rfl, rfl, by simp [hlen]⟩
+  simp only [Store.contents]
+  rw [zip_drop_take]
+
+/-- how the optional ends are filled in: `None` means the first / the last stored time -/
+theorem extract_time_range_defaults (s : Store K F) (t0 t1 : K) (h0 : s.times.head? = some t0)
+    (h1 : s.times.getLast? = some t1) (t : K) (a b : Option K) :
+    extractTimeRange s .all = extractTimeRange s (.pair (some t0) (some t1)) ∧
+    extractTimeRange s (.upto t) = extractTimeRange s (.pair (some t0) (some t)) ∧
+    extractTimeRange s (.pair none b) = extractTimeRange s (.pair (some t0) b) ∧
+    extractTimeRange s (.pair a none) = extractTimeRange s (.pair a (some t1)) := by
+  unfold extractTimeRange
+  refine ⟨by simp [h0, h1], by simp [h0], by simp [h0], by simp [h1]⟩
+
+/-- an open end on an empty storage is `IndexError` (`self.times[0]`) -/
+theorem extract_time_range_empty (s : Store K F) (h : s.times = []) (t : K) (a b : Option K) :
+    extractTimeRange s .all = .error .index ∧ extractTimeRange s (.upto t) = .error .index ∧
+    extractTimeRange s (.pair none b) = .error .index ∧
+    extractTimeRange s (.pair (some t) none) = .error .index := by
+  unfold extractTimeRange
+  simp [h]
+
+/-- **extract_time_range is consistent with the stored frames**: on sorted times the result
+holds exactly the stored pairs with `a ≤ t ≤ b`, in storage order. -/
+theorem extract_time_range_consistent (s : Store K F) (hlen : s.times.length = s.frames.length)
+    (hs : s.times.Pairwise (· ≤ ·)) (a b : K) :
+    ∃ s', extractTimeRange s (.pair (some a) (some b)) = .ok s' ∧
+      s'.contents = s.contents.filter (fun p => decide (a ≤ p.1 ∧ p.1 ≤ b)) := by
+  obtain ⟨s', i, n, h1, hi, hn, hc, _⟩ := extract_time_range_is_slice s hlen a b
+  refine ⟨s', h1, ?_⟩
+  rw [hc, hi, hn]
+  symm
+  apply filter_eq_drop_take
+  intro k hk
+  have hk' : k < s.times.length := by simpa [Store.contents, hlen] using hk
+  have hv : s.times[k]? = some (s.contents[k]).1 := by
+    simp [Store.contents, hk']
+  have hl := (bisectLeft_sorted s.times hs a).2 k _ hv
+  have hr := (bisectRight_sorted s.times hs b).2 k _ hv
+  simp only [decide_eq_true_eq]
+  rw [hr]
+  constructor
+  · rintro ⟨h2, h3⟩
+    refine ⟨?_, h3⟩
+    by_contra hlt
+    exact absurd (hl.mp (by omega)) (not_lt.mpr h2)
+  · rintro ⟨h2, h3⟩
+    refine ⟨?_, h3⟩
+    by_contra hlt
+    exact absurd (hl.mpr (not_le.mp hlt)) (by omega)
+
+end bisect
 
 end store
 end PdeVerif.Storage
